@@ -114,6 +114,7 @@ func c19Cases(cfg *world.Config, v *version) []*c19Case {
 	codec := codecFor(cfg)
 	rn, _ := codec.Decode(top)
 	mk("missing", "top node removed", func(c *c19Case) { c.remove = v.link })
+	mk("missing", "link is the empty string although the root records entries", func(c *c19Case) { l := ""; c.root.Link = &l })
 	mk("missing", "link to a name never written", func(c *c19Case) { l := "AAAAAAAAAAAAAAAAAAAAAAAAAAAAAAAAAAAAAAAAAAA"; c.root.Link = &l })
 	for n := 0; n < len(top); n++ {
 		n := n
